@@ -108,8 +108,16 @@ For a general description of dotted items (items) and ℇ-moves of items, see:
 */
 func (this *Item) Emoves() (items []*Item) {
 	newItems := util.NewStack(8).Push(this)
+	visited := make(map[string]bool)
 	for newItems.Len() > 0 {
 		item := newItems.Pop().(*Item)
+		// A repetition or option whose body can match the empty string leads
+		// back to an item that was already expanded; expanding it again would
+		// never terminate.
+		if visited[item.HashKey()] {
+			continue
+		}
+		visited[item.HashKey()] = true
 
 		if item.Reduce() || item.nextIsTerminal() {
 			items = append(items, item)
